@@ -21,6 +21,8 @@ REQUIRED = {"coef_exact": {"quick": 60, "thorough": 200}, "coef_stepper": {"quic
             "scheme_step": {"quick": 60, "thorough": 300}, "observed_order": {"quick": 8, "thorough": 30}}
 ASSUMPTIONS = ["default contour parameters M=16, r=1 unless stated in the case", "entries whose a-priori tolerance exceeds 1e-3 relative are counted ill-conditioned, not judged",
                "observed order is a bounded restatement of 'decays like dt^p'"]
+AMBIENT = True            # thorough tier: the repository's own test-suite runs under this property's general monitor (rv/ambient.py)
+REQUIRED_AMBIENT = {'ambient_coef_exact': 200}
 TIMEOUT = {"quick": 900, "thorough": 3000}
 C_TOL = 64.0
 
